@@ -47,8 +47,12 @@ MIN_NONTRIVIAL = {"quick": 300, "thorough": 5000}
 
 def strategy(tier):
     chunk = st.binary(min_size=1, max_size=22)
+    # the application writes a byte stream: single writes may be longer than
+    # the 22 bytes a channel carries at a time
+    appchunk = st.binary(min_size=1, max_size=22) | st.binary(min_size=1,
+                                                              max_size=60)
     cycle = st.fixed_dictionaries({
-        "app": st.lists(chunk, max_size=2) if True else None,
+        "app": st.lists(appchunk, max_size=2),
         "term": st.none() | st.none() | chunk,
         "tx_delay": st.integers(0, 3),
         "ack_check": st.booleans(),
@@ -72,9 +76,13 @@ def run_case(case):
     term.pdo_in_off, term.pdo_out_off = 0x1100, 0x1400
     chan = term.channel1 if case["channel"] == 1 else term.channel2
     dev = Serial(chan)
-    fds = [dev.in_read, dev.in_write, dev.out_read, dev.out_write]
+    # the terminal's other channel is in use as well (it never gets its
+    # initialisation accepted here, so it only keeps asking for it)
+    dev2 = Serial(term.channel2 if case["channel"] == 1 else term.channel1)
+    fds = [dev.in_read, dev.in_write, dev.out_read, dev.out_write,
+           dev2.in_read, dev2.in_write, dev2.out_read, dev2.out_write]
     try:
-        return _run(case, ec, term, dev)
+        return _run(case, ec, term, dev, dev2)
     finally:
         for fd in fds:
             try:
@@ -83,8 +91,8 @@ def run_case(case):
                 pass
 
 
-def _run(case, ec, term, dev):
-    sg = SyncGroup(ec, [dev])
+def _run(case, ec, term, dev, dev2):
+    sg = SyncGroup(ec, [dev, dev2])
     sg.allocate()
     data = bytearray([case["noise"]]) * max(46, sg.packet.size)
     sg.current_data = data
@@ -101,6 +109,8 @@ def _run(case, ec, term, dev):
     data[opos] = 0
     data[ipos + 1:ipos + 24] = struct.pack(
         "<23p", bytes([stale]) * (stale % 23)) if stale else bytes(23)
+    data[other_in] = 0      # the other channel never accepts its init
+    data[other_out] = 0
     snapshot_other = bytes(data[other_out:other_out + 24])
 
     app_written = bytearray()
@@ -131,7 +141,10 @@ def _run(case, ec, term, dev):
         # ---- application writes
         for chunk in cyc["app"] or []:
             if dev.connected:
-                os.write(dev.out_write, chunk)
+                try:
+                    os.write(dev.out_write, chunk)
+                except BlockingIOError:
+                    continue        # pipe full: the application would wait
                 app_written += chunk
                 events.append(f"app>{len(chunk)}")
         # ---- terminal side, before the master's update
@@ -168,11 +181,18 @@ def _run(case, ec, term, dev):
         # ---- the master's cycle
         try:
             dev.update()
+            dev2.update()
         except Exception as e:
             return fail(f"Serial.update raised {type(e).__name__}: {e}")
         ctrl = data[opos]
-        if bytes(data[other_out:other_out + 24]) != snapshot_other:
-            return fail("the other channel's output bytes changed")
+        now_other = bytes(data[other_out:other_out + 24])
+        if now_other[1:] != snapshot_other[1:] \
+                or now_other[0] not in (snapshot_other[0], 4):
+            return fail("the other channel's output bytes changed (beyond "
+                        "its own initialisation request)")
+        if dev2.connected:
+            return fail("the other channel considers itself connected "
+                        "although its initialisation was never accepted")
         if dev.connected and not connected_seen:
             connected_seen = True
             last_txreq = ctrl & 1
